@@ -6,6 +6,7 @@ import (
 	"net"
 	"runtime"
 	"sort"
+	"strings"
 	"sync"
 	"sync/atomic"
 	"time"
@@ -283,6 +284,15 @@ func c10RaceScenarios(tier string) []*Scenario {
 			}
 		}
 		out = append(out, sc)
+	}
+	// timers of a scope whose cached reporter is the M3 reporter, recorded from four goroutines at once: body M5 of
+	// C14 (every value reported through a shared handle arrives exactly once), judged here for the timer clause
+	for _, sc := range c14RaceScenarios(tier) {
+		if strings.HasPrefix(sc.Name, "M5-") {
+			c := *sc
+			c.Property = "C10"
+			out = append(out, &c)
+		}
 	}
 	return out
 }
